@@ -5,7 +5,7 @@
    analyze iteration has at most 2*len+1 entries and the analyze iterator is fused.  Partial:
    "no engine loop exhausts its fuel" (E2) is proved on the engine fragment only; a hang of the
    code shows only as a watchdog timeout in the correspondence check. *)
-From RX Require Import Base.Prelude Model.Engine Model.Matcher Model.Api Model.Run Proofs.ScanFacts Proofs.AnalyzeFacts Proofs.AnalyzeIterFacts Model.Op Proofs.EngineFacts Proofs.EngineCorollaries Proofs.FrameFacts Proofs.FragmentApi.
+From RX Require Import Base.Prelude Model.Engine Model.Matcher Model.Api Model.Run Proofs.ScanFacts Proofs.AnalyzeFacts Proofs.AnalyzeIterFacts Model.Op Proofs.EngineFacts Proofs.EngineCorollaries Proofs.FrameFacts Proofs.FragmentApi Spec.Syntax Spec.Parse Model.Compiler Proofs.GroupGrammar Proofs.GroupSpec.
 
 Theorem C06_token_bound_partial :
   forall matchf input, good_step matchf input -> forall s,
@@ -66,6 +66,23 @@ Theorem C06_fragment_good_step :
     good_step_on (matches prog input) input minv.
 Proof. exact fragment_good_step. Qed.
 
+(* from the pattern and flag strings, on the grammar of literals, alternation and nested groups: if
+   Regex::new does not flag the regex as matching the empty string, tokenize finishes within len+3
+   steps with at most len+1 tokens; nothing is assumed about parser, matcher or scan loop *)
+Theorem C06_group_grammar_tokenize_end_to_end :
+  forall xpath a fls input,
+    ok_a xpath a = true -> existsb (N.eqb 59) fls = false ->
+    match spec_flags xpath fls with
+    | Valid sf =>
+        s_q sf = false -> s_x sf = false ->
+        exists re, regex_new true xpath (show_a a) fls = Ok re
+          /\ (r_nullable re = false ->
+              exists l, tok_all (matches (r_prog re) input) input (S (S (S (length input)))) {| t_prev := Some 0; t_ms := st0 |} = Ok l
+                        /\ length l <= length input + 1)
+    | _ => True
+    end.
+Proof. exact grammar_tokenize_end_to_end. Qed.
+
 Print Assumptions C06_token_bound_partial.
 Print Assumptions C06_fused.
 Print Assumptions C06_engine_fragment_no_fuel_exhaustion_partial.
@@ -73,3 +90,4 @@ Print Assumptions C06_analyze_bound_partial.
 Print Assumptions C06_analyze_fused.
 Print Assumptions C06_fragment_token_bound.
 Print Assumptions C06_fragment_good_step.
+Print Assumptions C06_group_grammar_tokenize_end_to_end.
